@@ -95,6 +95,8 @@ def worker(repo, dump_bin, L, kw, out, timeout_s, part="0/1", only=""):
     pi, pn = (int(x) for x in part.split("/"))
     # O7 a stray token after a complete transaction is an error, never silently skipped: A + " @" is rejected
     obs.append(("stray-token-rejected", rel_append([BitVecVal(32, 8), BitVecVal(64, 8)]) + [accA], accB))
+    # O8 a trailing comment that touches the last token (no blank before '#')
+    obs.append(("trailing-comment-touching", rel_append([BitVecVal(35, 8), x]) + [ULT(x, 128), x != 10, x != 13, accA], Not(And(accB, same_kids))))
     # vacuity: some accepted A exists for this keyword within L
     s = SolverFor("QF_BV")
     s.set("timeout", int(timeout_s * 1000))
